@@ -161,6 +161,13 @@ def c05_r2(ctx):
     o = Interp(pd, mk(False, False)).run()
     good = len(o) == 1 and norm(strip_pre(o[0].value)) == "(annotation, None)"
     ctx.check(good, key(pd, "unconditional"), f"an unconditional field must keep its annotation and get no default; got {[x.text() for x in o]}", pd.loc(), okmsg="no directive -> annotation unchanged, no default")
+    td = repo.func("client_generators.result_types:ResultTypesGenerator._parse_type_definition")
+    cs_ = calls_named(td.node, "parse_operation_field")
+    dv = kw(cs_[0], "directives") if len(cs_) == 1 else None
+    reads_self = dv is not None and any(isinstance(n, ast.Attribute) and is_name(n.value, "self") for n in ast.walk(dv))
+    ctx.check(dv is not None and not reads_self and "directives" in norm(dv), key(td, "directives source"),
+              f"the directives deciding a field's optionality are `{norm(dv) if dv is not None else None}`: they are looked up in state stored on the generator instead of flowing from the selection being processed "
+              "(field nodes of a named fragment are shared between its spread sites, so one site's directives leak to another)", td.loc(), okmsg="directives come from the field being processed, not from instance state")
     pf = repo.func(RF + "parse_operation_field")
     c = calls_named(pf.node, "parse_directives")
     good = len(c) == 1 and "directives" in norm(kw(c[0], "directives") or ast.Constant(0)) and norm(kw(c[0], "annotation") or ast.Constant(0)) == "annotation"
@@ -295,7 +302,7 @@ def c06_r1(ctx):
     ctx.check(good, key(pd, "entry call"), "input field types are not parsed from field.type with the default flag", pd.loc(), okmsg="entry call: field.type, nullable=True")
 
 
-@rule("C06.R2", "every kind of constant default value is translated, recursively", min_instances=9)
+@rule("C06.R2", "every kind of constant default value is translated, recursively", min_instances=15)
 def c06_r2(ctx):
     repo = ctx.repo
     fi = repo.func(IF + "parse_input_const_value_node")
@@ -316,6 +323,32 @@ def c06_r2(ctx):
     its = sorted(norm(c.generators[0].iter) for c in comps)
     good = its == ["node.fields", "node.values"] and all(not c.generators[0].ifs for c in comps)
     ctx.check(good, key(fi, "recursion"), f"list/object defaults do not recurse over all values/fields ({its})", fi.loc(), okmsg="list values and object fields all recursed")
+    for c in comps:
+        it = norm(c.generators[0].iter)
+        nl, no = kw(c.elt, "nested_list"), kw(c.elt, "nested_object")
+        if it == "node.values":
+            good = is_const(nl, True) and no is not None and norm(no) == "nested_object"
+            ctx.check(good, key(fi, "list element flags"), f"list elements are translated with nested_list={norm(nl) if nl is not None else None}, nested_object={norm(no) if no is not None else None}: an element must be a plain literal (nested_list=True), never a Field(default_factory=...)", fi.loc(c),
+                      okmsg="list elements translated as plain nested literals")
+        else:
+            good = is_const(nl, True) and is_const(no, True)
+            ctx.check(good, key(fi, "object field flags"), f"object field values are translated with nested_list={norm(nl) if nl is not None else None}, nested_object={norm(no) if no is not None else None}: inside an object literal every value must be a plain literal (both True), never a Field(default_factory=...)", fi.loc(c),
+                      okmsg="object field values translated as plain nested literals")
+    # the Field(default_factory=...) wrapper is applied only at the top level
+    for kind_, flag in (("ListValueNode", "nested_list"), ("ObjectValueNode", "nested_object")):
+        for nested in (True, False):
+            def at(e, kind_=kind_, flag=flag, nested=nested):
+                t = norm(e)
+                if t.startswith("isinstance(node,"):
+                    return t == f"isinstance(node, {kind_})"
+                if t == flag:
+                    return nested
+                return None
+            o = Interp(fi, at).run()
+            wrapped = [x for x in o if x.value is not None and "default_factory" in norm(x.value)]
+            good = bool(o) and (not wrapped if nested else len(wrapped) == len(o))
+            ctx.check(good, key(fi, f"{kind_} {flag}={nested}"), f"{kind_} with {flag}={nested}: {'must be a plain literal' if nested else 'must be wrapped in Field(default_factory=lambda: ...)'}; got {[x.text()[:80] for x in o]}", fi.loc(),
+                      okmsg=f"{kind_} {flag}={nested}: {'plain literal' if nested else 'Field(default_factory=...)'}")
     keys = [n for n in walk_no_nested(fi.node) if isinstance(n, ast.ListComp) and norm(n.elt) == "generate_constant(f.name.value)" and norm(n.generators[0].iter) == "node.fields"]
     ctx.check(len(keys) == 1, key(fi, "object keys"), "object default keys are not the GraphQL field names", fi.loc(), okmsg="object default keys = GraphQL field names")
 
@@ -557,7 +590,7 @@ def c03_r4(ctx):
     ctx.check("generate_pydantic_field({ALIAS_KEYWORD: generate_constant(alias)})" in norm(pv.node), key(pv, "alias keyword"), "Field(alias=<GraphQL name>) is not built", pv.loc(), okmsg="Field(alias=<GraphQL name>)")
 
 
-@rule("C03.R5", "names fixed by the method template cannot be captured by operation variables", min_instances=4, also=["C18", "C04"])
+@rule("C03.R5", "names fixed by the method template cannot be captured by operation variables", min_instances=5, also=["C18", "C04"])
 def c03_r5(ctx):
     repo = ctx.repo
     sh = Shaper(repo)
@@ -574,6 +607,16 @@ def c03_r5(ctx):
     mapped_vals = {init_consts.get(m) for m in mapped_names}
     good = bool(o) and any("f'_{" in norm(m) and "in argument_names" in norm(m) for x in o for m in [x.env.get("<mut:variable_names>") or ast.Constant(0)])
     ctx.check(good and len(mapped_vals) >= 4, key(gv, "rename"), "template locals are not renamed when an argument has the same name", gv.loc(), okmsg=f"template locals {sorted(v for v in mapped_vals if v)} renamed on clash")
+    an = o[0].env.get("argument_names") if o else None
+    p0 = gv.node.args.args[1].arg if len(gv.node.args.args) > 1 else "?"
+    good = an is not None and norm(an) in (f"set((arg.arg for arg in {p0}.args))", f"{{arg.arg for arg in {p0}.args}}")
+    am = repo.func("client_generators.client:ClientGenerator.add_method")
+    cs = calls_named(am.node, "self.get_variable_names")
+    envm = {st.targets[0].id if isinstance(st.targets[0], ast.Name) else norm(st.targets[0]): st.value for st in am.node.body if isinstance(st, ast.Assign)}
+    tup = [st for st in am.node.body if isinstance(st, ast.Assign) and isinstance(st.targets[0], ast.Tuple) and "self.arguments_generator.generate(" in norm(st.value)]
+    good = good and len(cs) == 1 and len(cs[0].args) == 1 and tup and norm(cs[0].args[0]) == norm(tup[0].targets[0].elts[0])
+    ctx.check(bool(good), key(gv, "clash test"), "the clash test does not compare the template locals with the *emitted Python parameter names* of the method (GraphQL spellings such as $Query differ from the parameter `query`)", gv.loc(),
+              okmsg="clash test uses the emitted parameter names of this method")
     # every name the templates bind or read
     fixed: Dict[str, str] = {}
     via_map = set()
